@@ -114,7 +114,11 @@ def mk_toy_curve(dom, name=None, oid=(1, 3, 132, 0, 255)):
     """Library Curve object for a toy Domain built with public constructors,
     as a user defining a custom curve would."""
     cfp = CurveFp(dom.curve.p, dom.curve.a, dom.curve.b, dom.h)
-    gen = PointJacobi(cfp, dom.G[0], dom.G[1], 1, dom.n, generator=True)
+    if (dom.curve.a + dom.curve.b + dom.G[0]) % 3 == 0 and dom.curve.p > 3:
+        # base point handed over in projective form (Z != 1): as legal as the affine form
+        gen = mk_jac(cfp, dom.G, 2 + (dom.G[1] % (dom.curve.p - 2)), dom.n, True)
+    else:
+        gen = PointJacobi(cfp, dom.G[0], dom.G[1], 1, dom.n, generator=True)
     return _curves.Curve(name or "toy_p%d_a%d_b%d" % dom.curve.key(), cfp, gen, oid)
 
 
